@@ -1,7 +1,7 @@
 //! Scenario generators for the message-fault family (C02, C03, C04, C10; C08 and C07 live in
 //! byz.rs / hostile.rs and reuse these). Everything is drawn from the run's scenario PRNG.
 
-use crate::faults::{AlgMode, CharOp, Fault, KbField, Part, PayloadEdit, Reser};
+use crate::faults::{AlgMode, CharOp, Fault, KbField, Part, PayloadEdit, PubForm, Reser};
 use crate::gen::{self, GenCfg, Strat};
 use crate::msg::{Base, Case, CredSpec, Expand, IssuerSpec, MsgScn, PresSpec, Session};
 use crate::rng::Rng;
@@ -147,7 +147,14 @@ pub fn c03_fault(rng: &mut Rng, names: &[String], foreign_tok: usize) -> Fault {
             };
             Fault::ForgeDisclosure { arity: if rng.chance(1, 3) { 2 } else { 3 }, name, value, at: rng.usize(24) }
         }
-        13 | 14 => Fault::ForeignDisclosure { from: foreign_tok, j: idx, at: rng.usize(24) },
+        13 => Fault::ForeignDisclosure { from: foreign_tok, j: idx, at: rng.usize(24) },
+        14 => {
+            if rng.bool() {
+                Fault::LastDisclosureIntoKbSlot
+            } else {
+                Fault::ForeignDisclosure { from: foreign_tok, j: idx, at: rng.usize(24) }
+            }
+        }
         _ => {
             let text = rng
                 .pick(&[
@@ -311,7 +318,12 @@ pub fn gen_c02(rng: &mut Rng, tier: Tier) -> MsgScn {
                     1 => AlgMode::NoneUpper,
                     2 => AlgMode::Absent,
                     3 => AlgMode::Unknown(rng.pick(&["XS256", "", "es256", "HS257", "ES256 "]).to_string()),
-                    4 | 5 => AlgMode::HsWithPubPem(rng.pick(&["ecA", "ecB", "edA"]).to_string()),
+                    4 | 5 => AlgMode::HsWithPub {
+                        // the key the directory will return for this token is the interesting one
+                        kid: if rng.chance(3, 4) && !iss[0].key.starts_with("hs") { iss[0].key.clone() } else { rng.pick(&["ecA", "ecB", "edA"]).to_string() },
+                        form: *rng.pick(&[PubForm::Pem, PubForm::Der, PubForm::Raw, PubForm::Raw]),
+                        hs: rng.pick(&["HS256", "HS256", "HS384", "HS512"]).to_string(),
+                    },
                     6 => AlgMode::Relabel(rng.pick(&["HS256", "EdDSA", "ES256", "ES384", "RS256", "PS256", "HS512"]).to_string()),
                     _ => AlgMode::ResignOtherFamily(rng.pick(&["ecD", "edC", "hsB", "ecB", "edA"]).to_string()),
                 };
@@ -352,14 +364,21 @@ pub fn gen_c04(rng: &mut Rng, tier: Tier) -> MsgScn {
     let mut mk = |rng: &mut Rng, issuer: usize, hk: Option<String>| {
         let claims = gen::gen_claims(rng, &cfg, &iss[issuer].iss, now);
         // AllLevels / TopLevel so that there are disclosures to add, drop and reorder
-        let strat = if rng.chance(3, 4) { Strat::All } else { gen::gen_strategy(rng, &claims) };
+        // mostly AllLevels so that there are disclosures to add, drop and reorder; sometimes
+        // NoSDClaims: a key-bound credential with no disclosure at all
+        let strat = match rng.usize(8) {
+            0 => Strat::None,
+            1 | 2 => gen::gen_strategy(rng, &claims),
+            _ => Strat::All,
+        };
         CredSpec::Honest { issuer, claims, strat, holder_key: hk, decoys: rng.bool(), fmt: rand_fmt(rng) }
     };
     let creds = vec![mk(rng, 0, Some(hk0.clone())), mk(rng, 0, Some(hk0.clone())), mk(rng, 1, Some(hk2.clone())), mk(rng, 0, None)];
     let s1 = (gen::gen_session_string(rng), gen::gen_session_string(rng));
     let s2 = (format!("{}-2", s1.0), format!("{}-2", s1.1));
     let kb = |rng: &mut Rng, s: &(String, String), k: &str| Some(KbArgs { aud: s.0.clone(), nonce: s.1.clone(), key: k.to_string(), alg: kb_alg_for(rng, k) });
-    let sel = |rng: &mut Rng, c: &CredSpec, keep: u64| gen::gen_selection(rng, &claims_of(c), keep);
+    // sometimes the empty selection: a key-bound presentation that discloses nothing
+    let sel = |rng: &mut Rng, c: &CredSpec, keep: u64| if rng.chance(1, 5) { Map::new() } else { gen::gen_selection(rng, &claims_of(c), keep) };
     let pres = vec![
         PresSpec::Holder { cred: 0, selection: sel(rng, &creds[0], 900), kb: kb(rng, &s1, &hk0) }, // p0
         PresSpec::Holder { cred: 0, selection: sel(rng, &creds[0], 500), kb: kb(rng, &s2, &hk0) }, // p1 other session, other disclosures
